@@ -601,6 +601,8 @@ class dir_archive(archive):
             name = tempfile.mktemp(prefix="_____", dir="").replace("-","_")
             _arg = ".__args__" if input else ""
             string = "from %s%s import memo as %s; sys.modules.pop('%s%s', None); sys.modules.pop('%s', None)" % (base, _arg, name, base, _arg, base)
+            # a cached .pyc (checked by size and 1s mtime) can be stale: don't write it
+            _dwb, sys.dont_write_bytecode = sys.dont_write_bytecode, True
             try:
                 sys.path.insert(0, root)
                 exec(string, globals()) #FIXME: unsafe, potential name conflict
@@ -610,6 +612,7 @@ class dir_archive(archive):
                 raise KeyError(key)
                #raise OSError("error reading directory for '%s'" % key)
             finally:
+                sys.dont_write_bytecode = _dwb
                 sys.path.remove(root)
         return memo
     def _store(self, key, value, input=False):
@@ -756,6 +759,8 @@ class file_archive(archive):
             name = tempfile.mktemp(prefix="_____", dir="").replace("-","_")
             os.chdir(root)
             string = "from %s import memo as %s; sys.modules.pop('%s')" % (file, name, file)
+            # a cached .pyc (checked by size and 1s mtime) can be stale: don't write it
+            _dwb, sys.dont_write_bytecode = sys.dont_write_bytecode, True
             try:
                 sys.path.insert(0, root) # the current directory may not be importable
                 exec(string, globals()) #FIXME: unsafe, potential name conflict
@@ -765,6 +770,7 @@ class file_archive(archive):
                 memo = {}
                #raise OSError("error reading file archive %s" % filename)
             finally:
+                sys.dont_write_bytecode = _dwb
                 sys.path.remove(root)
                 os.chdir(curdir)
         return memo
